@@ -84,6 +84,12 @@ func init() {
 		wall := e.tt.And(ts[6], e.tt.Const(64, 1<<30-1))
 		return e.ret(st, &Agg{Elems: []Value{wall, sec, locVal}, Epoch: -1})
 	}
+	// the local time zone is modelled as UTC (native replays run with TZ=UTC): initLocal would read the
+	// environment and the zone database
+	intrinsics["time.initLocal"] = func(e *Engine, st *State, fn *ssa.Function, a []Value, ins ssa.Instruction) []*State {
+		e.Models["time.Local modelled as UTC (native replays run with TZ=UTC)"] = true
+		return e.ret(st, Tuple{})
+	}
 	acc := func(name string, pick func(c civil) *Term, lo, hi int64) {
 		intrinsics["(time.Time)."+name] = func(e *Engine, st *State, fn *ssa.Function, a []Value, ins ssa.Instruction) []*State {
 			_, ext, loc, ok := e.timeParts(a[0])
@@ -97,6 +103,9 @@ func init() {
 			if !isP {
 				e.cutPath(st, "calendar accessor on a time with an unknown location", ins)
 				return nil
+			}
+			if p.Obj != nil && p.Obj.Name == "time.localLoc" {
+				p = Pointer{} // time.Local is modelled as UTC (see time.initLocal)
 			}
 			e.Models["time.Date/Year/Month/Day/Hour/Minute/Second: civil calendar modelled by contract (see gosmt/timemodel.go)"] = true
 			if c, ok := e.civil[ext]; ok {
